@@ -2134,6 +2134,9 @@ class ImportManager:
       The minimal selector for `configurable_` as a string.
     """
     if self.dynamic_registration:
+      if configurable_.wrapped == macro:  # pylint: disable=comparison-with-callable
+        # A Gin builtin: no import is required for it (`require_configurable`).
+        return configurable_.selector
       if configurable_.import_source:
         import_statement, name = configurable_.import_source
         module = import_statement.module
